@@ -139,6 +139,12 @@ type Token struct {
 type Options struct {
 	Scripting     bool // <noscript> is RAWTEXT when true, ordinary when false
 	NoStateSwitch bool // never leave the Data content model after a start tag (foreign content); CDATA sections are recognised
+	// Foreign tracks open svg and math elements: while one is open, start tags do not switch the content model
+	// (an HTML parser does not switch the tokenizer for script, style, title, textarea ... in foreign content).
+	// The element counts as open from its start tag to its end tag or to a start tag that breaks out of foreign
+	// content (HTML standard 13.2.6.5: b, br, div, img, p, span, table ...). Integration points (foreignObject,
+	// annotation-xml, desc, title) are not modelled.
+	Foreign bool
 
 	// InitialElement, if non-empty, starts the tokenizer as if a start tag
 	// with this (lower-case) name had just been emitted: the "last start tag"
@@ -388,6 +394,7 @@ type tokenizer struct {
 
 	lastStartTag    string
 	hasLastStartTag bool
+	foreignDepth    int
 
 	// current comment token
 	comment []byte
@@ -564,10 +571,23 @@ func (t *tokenizer) emitTag() {
 	if t.tagKind == StartTag {
 		t.lastStartTag = tok.Name
 		t.hasLastStartTag = true
-		if !t.opt.NoStateSwitch {
+		if t.opt.Foreign {
+			switch {
+			case tok.Name == "svg" || tok.Name == "math":
+				if !tok.SelfClosing {
+					t.foreignDepth++
+				}
+			case foreignBreakout[tok.Name]:
+				t.foreignDepth = 0
+			}
+		}
+		if !t.opt.NoStateSwitch && t.foreignDepth == 0 {
 			t.st = t.contentStateFor(tok.Name)
 		}
 	} else {
+		if t.opt.Foreign && (tok.Name == "svg" || tok.Name == "math") && t.foreignDepth > 0 {
+			t.foreignDepth--
+		}
 		if len(tok.Attrs) > 0 {
 			t.err("end-tag-with-attributes")
 		}
@@ -576,6 +596,12 @@ func (t *tokenizer) emitTag() {
 		}
 	}
 }
+
+// foreignBreakout: start tags that end foreign content (HTML standard 13.2.6.5; font only with color / face / size,
+// which is not modelled).
+var foreignBreakout = map[string]bool{"b": true, "big": true, "blockquote": true, "body": true, "br": true, "center": true, "code": true, "dd": true, "div": true, "dl": true, "dt": true, "em": true, "embed": true,
+	"h1": true, "h2": true, "h3": true, "h4": true, "h5": true, "h6": true, "head": true, "hr": true, "i": true, "img": true, "li": true, "listing": true, "menu": true, "meta": true, "nobr": true, "ol": true,
+	"p": true, "pre": true, "ruby": true, "s": true, "small": true, "span": true, "strong": true, "strike": true, "sub": true, "sup": true, "table": true, "tt": true, "u": true, "ul": true, "var": true}
 
 // ---- comments and doctypes -------------------------------------------------
 
